@@ -7,7 +7,7 @@ CONFIG = dict(
     namespaces=["MahfModel.Props.C15"],
     shrink_lists=["rules", "tree", "loop", "scope", "ifx"],
     level="proof",
-    rule=("(1) logger: 24 log configurations (no LogConfig / empty / always / never / every-n / Not / scripted triggers incl. Err, with_many, clear, "
+    rule=("(1) logger: 24 log configurations (no LogConfig / empty / always / never / every-n incl. n = 0 / Not / scripted triggers incl. Err, with_many, clear, "
           "duplicate entry names, sources missing) x 20 logger placements (before / inside / after a loop, twice in a loop, inside a branch, inside a "
           "scope, nested loops, two loops, no loop at all) x iteration counts 0..5, plus seeded random programs over "
           "Block/Loop/Branch/Scope/Logger/SetX/AddX with random rule sets (2500 quick / 100000 thorough); each is a REAL Configuration built "
@@ -41,7 +41,11 @@ CONFIG.update(
                 "model's decoded compress — key numbering and name-table order are representation, not content; name table duplicate-free "
                 "and keys in range are checked; "
                 "O: decoded exports equal the specified sequence of steps as maps)."),
-    level_note=("proof, partial: the theorems are about the model. The serde back-ends (serde_json, ciborium, ron), erased_serde's trait "
+    level_note=("proof, partial: the theorems are about the model. Configuration-export clauses (every configuration serialises, names "
+                "everything, differs when structure/parameters differ, clone equal): TESTED on all templates and generated tree pairs "
+                "through to_ron / serde_json / the harness's name-preserving serde traversal (hcommon::sertree); the Lean theorems "
+                "ser_injective, ser_names_every_node, clone_serialises_equal are about an ABSTRACT tree serialisation only (its equality "
+                "verdict is compared with the three real serialisers on the generated pairs, nothing more). The serde back-ends (serde_json, ciborium, ron), erased_serde's trait "
                 "objects and HashMap ordering are exercised on the generated cases, not modelled: that every configuration serialises "
                 "(Ok) and that real exports differ for differing configurations is checked per case, not proved. JSON cannot carry "
                 "non-finite floats: serde_json writes null (modelled as jsonValue; known finding json_nonfinite_violates, theorem "
